@@ -299,7 +299,7 @@ pub fn def() -> PropDef {
         rule: "Single-threaded worker processes (the counters are process-wide). leak:* groups: a generated history (C05's OwningIovec / AnchoredSlice state machine with clones, takes, arena swaps, held anchors; C01's Encoder/Decoder feeding and draining plans; C06's StreamReader and C08's StreamChunker runs) is executed, every object is dropped in a generated order, and (num_live_chunks, num_live_bytes) must equal their values before the case. footprint:stream-reader: streams of 8..24 MiB (16..256 MiB in thorough) of delimited records (empty, one byte, invalid at the first byte, 300 B, 5000 B, 70000 B, extra delimiters; one kind dominating or an arbitrary mixture) read record by record through one StreamReader with block sizes 4 KiB / 64 KiB / 256 KiB / default, live bytes sampled after every record against 4 MiB + 2 blocks and first-half / second-half growth. footprint: streams of 16..40 MiB (32..512 MiB in thorough) of four shapes through Encoder, Decoder or an Encoder->Decoder pipeline, fed in phases of pieces of 1 B..1 MiB with all input methods, the consumer draining everything consumable after every call (or every 2nd / 3rd call, with the bound raised by what may be left unconsumed); live arena bytes are sampled after every call: the peak must stay below 4 MiB per codec and the peak over the second half of the stream must not exceed the peak over the first half by more than one chunk (1 MiB) - a leak of one chunk per arena turnover fails on these lengths. Non-trivial: (leak) a history with a clone, a taken / swapped arena, or an anchor left behind a partially consumed slice; (footprint) stream >= 16 MiB. Distinct: hash of the serialised case.",
         assumptions: &["arena requests <= 1 MiB in the footprint runs", "the footprint bound is a constant with margin (probed peaks: ~2 MiB per codec), not a minimum"],
         exhaustive_note: None,
-        shards: |t: Tier| t.pick(8, 16),
+        shards: |_t: Tier| 16,
         run,
         replay,
     }
